@@ -34,6 +34,25 @@ Theorem C01_reservation_holds : forall L now t log ev, LInv L now t log -> In ev
 Proof. exact reservation_holds. Qed.
 Print Assumptions C01_reservation_holds.
 
+(* Link between the model that is run against the implementation and the theorem above: a sequential round that the
+   acceptor accepts changes the lease table exactly as a short history of server operations does (round_ops), these are
+   server operations at non-decreasing clock readings, hence the invariant and the exclusivity of the reservation log are
+   kept by every accepted round - and, by induction, by every accepted sequential history with ordered times. *)
+Theorem C01_accepted_round_is_operations : forall c t now r t',
+  r_has_snap r = false -> accept_round c t r = RAcc t' -> fst (t_final (c_db c) t now (round_ops c t now r)) = t'.
+Proof. exact accepted_round_is_ops. Qed.
+Print Assumptions C01_accepted_round_is_operations.
+
+Theorem C01_accepted_round_keeps_invariant : forall c t now log r t',
+  r_has_snap r = false -> accept_round c t r = RAcc t' ->
+  (now <= r_t r)%Z -> (forall f, In f (r_outs r) -> (r_t r <= of_t f)%Z) ->
+  (0 <= hold_ns <= c_lease c)%Z -> (0 <= req_hold_ns <= c_lease c)%Z ->
+  LInv (c_lease c) now t log -> excl_log log ->
+  let '(t2, now2, log2) := g_run (c_db c) t now (round_ops c t now r) log in
+  t2 = t' /\ LInv (c_lease c) now2 t2 log2 /\ excl_log log2 /\ (now <= now2)%Z.
+Proof. exact accepted_round_keeps_invariant. Qed.
+Print Assumptions C01_accepted_round_keeps_invariant.
+
 Example C01_nonvacuous :
   let x := {| net_from := 10; net_to := 20; dyn_from := 12; dyn_to := 13; st := empty_store |} in
   let h := [(0%Z, OpOffer [0; 1] (fun _ => false) (fun _ => (true, 600%Z)) None [1] 15%Z);
